@@ -4,6 +4,12 @@ use crate::rng::Rng;
 
 pub mod c01;
 pub mod c02;
+pub mod c20;
+pub mod c18;
+pub mod c17;
+pub mod c12;
+pub mod c13;
+pub mod c09;
 pub mod c03;
 pub mod c14;
 pub mod c19;
@@ -15,7 +21,7 @@ pub mod c10;
 
 /// run the real code for one request; None = unknown function
 pub fn run(r: &Req) -> Option<String> {
-    c01::run(r).or_else(|| c02::run(r)).or_else(|| c03::run(r)).or_else(|| c14::run(r)).or_else(|| c19::run(r)).or_else(|| c06::run(r)).or_else(|| c07::run(r)).or_else(|| c10::run(r))
+    c01::run(r).or_else(|| c02::run(r)).or_else(|| c20::run(r)).or_else(|| c18::run(r)).or_else(|| c17::run(r)).or_else(|| c12::run(r)).or_else(|| c13::run(r)).or_else(|| c09::run(r)).or_else(|| c03::run(r)).or_else(|| c14::run(r)).or_else(|| c19::run(r)).or_else(|| c06::run(r)).or_else(|| c07::run(r)).or_else(|| c10::run(r))
 }
 
 /// (request lines, whether the enumerated part was exhaustive over its stated bounds)
@@ -23,6 +29,12 @@ pub fn generate(prop: &str, tier: &str, rng: &mut Rng) -> (Vec<String>, bool) {
     match prop {
         "C01" => c01::generate(tier, rng),
         "C02" => c02::generate(tier, rng),
+        "C20" => c20::generate(tier, rng),
+        "C18" => c18::generate(tier, rng),
+        "C17" => c17::generate(tier, rng),
+        "C12" => c12::generate(tier, rng),
+        "C13" => c13::generate(tier, rng),
+        "C09" => c09::generate(tier, rng),
         "C03" => c03::generate(tier, rng),
         "C14" => c14::generate(tier, rng),
         "C19" => c19::generate(tier, rng),
@@ -39,6 +51,12 @@ pub fn rule(prop: &str, tier: &str) -> String {
     match prop {
         "C01" => c01::rule(tier),
         "C02" => c02::rule(tier),
+        "C20" => c20::rule(tier),
+        "C18" => c18::rule(tier),
+        "C17" => c17::rule(tier),
+        "C12" => c12::rule(tier),
+        "C13" => c13::rule(tier),
+        "C09" => c09::rule(tier),
         "C03" => c03::rule(tier),
         "C14" => c14::rule(tier),
         "C19" => c19::rule(tier),
@@ -55,6 +73,7 @@ pub fn rule(prop: &str, tier: &str) -> String {
 pub fn compare(prop: &str, r: &Req, imp: &str, model: &str) -> Option<bool> {
     match prop {
         "C05" => Some(c05::compare(r, imp, model)),
+        "C12" => c12::compare(r, imp, model),
         "C06" => c06::compare(r, imp, model),
         "C07" => c07::compare(r, imp, model),
         "C10" => Some(c10::compare(r, imp, model)),
@@ -83,6 +102,12 @@ pub fn valid_case(prop: &str, r: &Req) -> bool {
     match prop {
         "C01" => c01::valid_case(r),
         "C02" => c02::valid_case(r),
+        "C20" => c20::valid_case(r),
+        "C18" => c18::valid_case(r),
+        "C17" => c17::valid_case(r),
+        "C12" => c12::valid_case(r),
+        "C13" => c13::valid_case(r),
+        "C09" => c09::valid_case(r),
         "C03" => c03::valid_case(r),
         "C14" => c14::valid_case(r),
         "C19" => c19::valid_case(r),
@@ -100,6 +125,21 @@ pub fn tags(prop: &str, r: &Req, imp: &str) -> Vec<String> {
     let mut t = vec![];
     if prop == "C14" {
         t.extend(c14::tags(r, imp));
+    }
+    if prop == "C09" {
+        return c09::tags(r, imp);
+    }
+    if prop == "C13" {
+        t.extend(c13::tags(r));
+    }
+    if prop == "C17" {
+        return c17::tags(r, imp);
+    }
+    if prop == "C18" {
+        return c18::tags(r, imp);
+    }
+    if prop == "C20" {
+        t.extend(c20::tags(r, imp));
     }
     if r.has("w") && r.has("xs") {
         let len = r.list("xs").len();
@@ -127,7 +167,10 @@ pub fn tags(prop: &str, r: &Req, imp: &str) -> Vec<String> {
 
 /// generic non-triviality: at least two input elements (or a non-series request) and an
 /// output with at least one non-null token
-pub fn nontrivial(_prop: &str, r: &Req, imp: &str) -> bool {
+pub fn nontrivial(prop: &str, r: &Req, imp: &str) -> bool {
+    if prop == "C09" {
+        return c09::nontrivial(imp);
+    }
     let len_ok = if r.has("xs") { r.list("xs").len() >= 2 } else if r.has("n") { r.usize("n") >= 2 } else { true };
     let out_ok = imp.split(|c| c == ',' || c == ';').any(|t| t != "_" && t != "[]" && !t.is_empty());
     len_ok && out_ok
@@ -138,6 +181,8 @@ pub fn known_finding(prop: &str, r: &Req, imp: &str, spec: &str) -> Option<Strin
     match prop {
         "C14" => c14::known_finding(r, imp, spec),
         "C05" => c05::known_finding(r, imp, spec),
+        "C17" => c17::known_finding(r, imp, spec),
+        "C20" => c20::known_finding(r, imp),
         _ => None,
     }
 }
